@@ -54,7 +54,9 @@ def plan(tier):
 
 HOSTILE = ["dotdot", "absolute", "symlink-write", "abs-symlink-write", "hardlink-outside-overwrite", "hardlink-noprefix",
            "hardlink-meta", "unknown-toplevel", "missing-audit", "wrong-vsn", "no-vsn", "duplicate", "audit-mismatch",
-           "content-symlink", "dotdot-dir", "symlink-chain", "hardlink-abs", "hardlink-via-symlink", "hardlink-to-symlink"]
+           "content-symlink", "dotdot-dir", "symlink-chain", "hardlink-abs", "hardlink-via-symlink", "hardlink-to-symlink",
+           # siblings of the target whose path has the target's path as a string prefix
+           "sibling-prefix", "sibling-prefix-overwrite", "sibling-prefix-new", "sibling-prefix-symlink"]
 
 def gen_case(rng, tier, index):
     model = treegen.TreeModel()
@@ -224,6 +226,15 @@ def _hostile_archive(kinds, good_members, outside, content_src, audit_bytes, mis
                     add_file("evil-toplevel.txt", b"evil")
                 elif k == "duplicate":
                     add_file("content/a", b"second-version-of-a\n")
+                elif k == "sibling-prefix":
+                    add_file("content/../workspace.old/evil", b"evil")
+                elif k == "sibling-prefix-overwrite":
+                    add_file("content/../workspace.sh", b"overwritten")
+                elif k == "sibling-prefix-new":
+                    add_file("content/../workspace_evil/evil", b"evil")
+                elif k == "sibling-prefix-symlink":
+                    add_link("content/sp", "../workspace.old")
+                    add_file("content/sp/victim.txt", b"overwritten-through-sibling-symlink")
                 elif k == "content-symlink":
                     add_link("content", outside)
                     add_file("content/evil-content-symlink", b"evil")
@@ -352,7 +363,13 @@ def run_case(case):
             before = sentinel()
             common.write_file(art, hostile)
             d = fresh_dest()
+            # neighbours of the target directory inside the package's own directory
+            os.makedirs(os.path.join(d, "workspace.old"))
+            common.write_file(os.path.join(d, "workspace.old", "victim.txt"), "precious\n")
+            common.write_file(os.path.join(d, "workspace.sh"), "#!/bin/sh\n")
+            near_before = treecmp.canon(d, skip=("workspace", "audit.json.gz", "audit.json.gz.pickle"))
             st, info = _download(arch, d)
+            near_after = treecmp.canon(d, skip=("workspace", "audit.json.gz", "audit.json.gz.pickle"))
             landed = True
             for h in case["hostile"]:
                 stats.inc("hostile_" + h)
@@ -360,7 +377,11 @@ def run_case(case):
             log.append(("hostile", case["hostile"], st))
             common.write_file(art, raw)
             after = sentinel()
-            if after[0] != before[0]:
+            if near_after != near_before:
+                viol = {"kind": "extraction-escaped-target",
+                        "detail": "hostile members %s (%s: %s) changed the neighbours of the target workspace: %s" % (
+                            case["hostile"], st, info, treecmp.diff(near_before, near_after, 6))}
+            elif after[0] != before[0]:
                 viol = {"kind": "extraction-escaped-target",
                         "detail": "hostile members %s (%s: %s) changed the tree outside the target: %s" % (
                             case["hostile"], st, info, treecmp.diff(before[0], after[0], 6))}
